@@ -273,6 +273,8 @@ func (o *oracleInv) price(m *Machine, a *Action, out Outcome) error {
 		admitted, why = false, "size"
 	case sim.PriceSig(a.Sig) != sim.SigValid:
 		admitted, why = false, "signature"
+	case a.Co > 0:
+		admitted, why = false, "the co-signing validator's signature was made with the first signer's key"
 	case a.PNonce < 0 || int(a.PNonce) > o.maxNonce:
 		admitted, why = false, "nonce beyond the per-round limit"
 	case !hasEntry:
